@@ -6,6 +6,7 @@ pub mod driver;
 pub mod dump;
 pub mod exec;
 pub mod faults;
+pub mod model;
 pub mod wgen;
 pub mod props;
 pub mod rng;
@@ -221,6 +222,25 @@ fn main() {
                     std::process::exit(if matches!(other, Verdict::HarnessError(_)) { 2 } else { 0 });
                 }
             }
+        }
+        "dump" => {
+            // run an .egg file command by command on the engine and on the model, print both dumps
+            let path = args.get(2).expect("dump <file.egg>");
+            let txt = std::fs::read_to_string(path).expect("read");
+            exec::install_panic_hook();
+            let mut e = exec::Engine::new(exec::Mode::Plain, 1);
+            let mut m = model::Model::new();
+            for cmd in sexp::parse_all(&txt).expect("parse") {
+                let t = cmd.to_string();
+                let o = e.run(&t);
+                let mo = m.run(&t);
+                println!("{t}\n   engine: {}\n   model:  {:?}", props::common::normalized(&o), mo);
+            }
+            let (_, d) = e.dump().unwrap();
+            println!("--- engine dump\n{}", d.text());
+            let dm = dump::canonical(&m.raw());
+            println!("--- model dump\n{}", dm.text());
+            println!("--- equal: {}", d.lines == dm.lines);
         }
         "exec" => {
             // run a case file in this very process (debugging)
